@@ -499,9 +499,15 @@ impl DtlsInner {
                     // must arrive protected; anything else is a forgery (or a
                     // corrupted header) from the path or a third party and must
                     // not reach the upper layer or change connection state.
+                    // The same holds for cleartext handshake messages: every
+                    // message that follows key derivation (Finished) travels in
+                    // epoch 1, so an epoch-0 one is either a late retransmission
+                    // (a duplicate anyway) or a forgery that must not be able to
+                    // fail the connection.
                     if record.epoch == 0
                         && (record.content_type == ContentType::ApplicationData
-                            || (record.content_type == ContentType::Alert
+                            || ((record.content_type == ContentType::Alert
+                                || record.content_type == ContentType::Handshake)
                                 && ctx.session_keys.is_some()))
                     {
                         debug!(
